@@ -1441,6 +1441,17 @@ class Executor:
         return out
 
     def eq(self, a, b, st):
+        if getattr(a, 'kind', None) == 'setof' and getattr(b, 'kind', None) == 'setof':
+            # set(L1) == set(L2): mutual inclusion of the elements of the two lists
+            h = st.heap
+            la, lb = a.l, b.l
+            if la.t.eq(lb.t):
+                return z3.BoolVal(True)
+            ea = lambda i: h.lget(la.t, la.ty.elem, i)
+            eb = lambda j: h.lget(lb.t, lb.ty.elem, j)
+            na, nb = h.llen(la.t), h.llen(lb.t)
+            return z3.And(sym.forall_int(0, na, lambda i: sym.exists_int(0, nb, lambda j: v_eq(ea(i), eb(j)))),
+                          sym.forall_int(0, nb, lambda j: sym.exists_int(0, na, lambda i: v_eq(eb(j), ea(i)))))
         if isinstance(a, (ClassRef, BuiltinType)) or isinstance(b, (ClassRef, BuiltinType)) or \
                 getattr(a, 'kind', None) == 'typeof' or getattr(b, 'kind', None) == 'typeof':
             return self.type_eq(a, b)
